@@ -1,6 +1,6 @@
 //! Shared harness plumbing: stubs (R4), presized builders (R3), the harness macro.
 
-use crate::bytecode::bytecode::OpCode;
+pub use crate::bytecode::bytecode::OpCode;
 use crate::bytecode::heap::*;
 use crate::bytecode::program::*;
 use crate::bytecode::state::*;
